@@ -60,7 +60,7 @@ def run(tier):
         sig, call, b = v["sig"], v["call"], v["b"]
         sup = {a: k for a, k in call.items() if k != "-"}
         comp = ["c.html", definition(sig)]
-        forms = ["inline", "api"]
+        forms = ["inline", "api", "api-empty-body"] + (["api-body"] if vi % 4 == 0 else [])
         h = int(hashlib.md5(json.dumps([sig, call], sort_keys=True).encode()).hexdigest(), 16)
         if tier == "thorough" or h % 3 == 0:
             forms += ["shorthand", "spread", "body"]
@@ -80,8 +80,14 @@ def run(tier):
                 callsrc = "{% <c " + " ".join("%s=%s" % (a, LIT[k]) for a, k in sorted(sup.items())) + "> %}B[{{ ck }}{{ d }}]<{% </c> %}"
                 ctx["d"] = "&"
                 body_text = "B[1&amp;]<"
-            if form == "api":
-                steps = [{"op": "add", "tpls": [comp]}, {"op": "render_component", "name": "c", "auto": True, "ctx": {a: VAL[k] for a, k in sup.items()}, "expect_ae": True}]
+            if form.startswith("api"):
+                # through the API the body is a ready text ("" is a body: defined and empty, as for an empty call body)
+                st = {"op": "render_component", "name": "c", "auto": True, "ctx": {a: VAL[k] for a, k in sup.items()}, "expect_ae": True}
+                if form == "api-empty-body":
+                    st["body"], body_text = "", ""
+                elif form == "api-body":
+                    st["body"], body_text = "B[x]", "B[x]"
+                steps = [{"op": "add", "tpls": [comp]}, st]
             else:
                 tpl = "{% set cs = 1 %}{% for lv in [1] %}" + callsrc + "{% endfor %}"
                 steps = [{"op": "add", "tpls": [comp, ["t.html", tpl]]}, {"op": "render", "name": "t.html", "expect_ae": True}]
